@@ -81,10 +81,13 @@ func Try(a app.App, ctx app.IOContext) (err error) {
 		return err
 	}
 	// create independed scope for try body
+	// (it is built on the data, event and injector objects behind parentScope, not on parentScope
+	// itself: a closed scope drops these objects, and a task of the body or of a nested try that
+	// is closed after parentScope would run into the nil fields)
 	separatedScope := scope.New(scope.Params{
-		DataScope:  parentScope,
-		EventScope: parentScope,
-		Injector:   injector.NewMultiInjector([]app.Injector{parentScope}),
+		DataScope:  parentScope.BaseDataScope(),
+		EventScope: parentScope.BaseEventScope(),
+		Injector:   injector.NewMultiInjector([]app.Injector{parentScope.BaseInjector()}),
 	})
 	if err = deps.Runner.Run(pipservices.Pip{
 		Context: pipservices.PipContext{
